@@ -169,4 +169,18 @@ def walToReplay (minLog : Nat) (nm : Name) : Option Nat :=
 def logsToRecover (minLog : Nat) (names : List Name) : List Nat :=
   names.filterMap (walToReplay minLog)
 
+/-- the file number a name carries, of whatever kind (`recover_unrecorded_logs` removes it from the
+    set of expected files for tables, manifests, temp files and WALs alike) -/
+def numberOf : Kind → Option Nat
+  | .wal n | .table n | .manifest n | .temp n => some n
+  | _ => none
+
+def presentNumbers (names : List Name) : List Nat :=
+  names.filterMap fun nm => (parse nm).bind numberOf
+
+/-- `recover_unrecorded_logs`: the live table numbers no file name accounts for (non-empty =
+    `Corruption: missing files`, the open fails) -/
+def missingFiles (live : List Nat) (names : List Name) : List Nat :=
+  live.filter fun n => !((presentNumbers names).contains n)
+
 end Rain.FileNames
